@@ -17,6 +17,10 @@ REG = {
    text="Theorems in coq/Properties/C04.v about a Gallina model of rolling.rs/checksum.rs/generator.rs/applier.rs: rolling checksum = direct checksum after any roll sequence (u32 arithmetic modelled), copy ops in range (unconditional), reconstruction for both generators for all old/new/block sizes (relative to a non-colliding strong hash; closed for the identity instance), wire transparency relative to codec round-trip laws. Tied to the code by differential runs of the extracted model against the real library and sy-remote, and by constants regenerated from the source.",
    note="xxh3/serde_json/zstd are oracles with stated laws; full reads on regular files. All theorems closed under the global context.",
    technique="Rocq proof (loop invariants by induction) + extracted-model differential correspondence"),
+ "C14": dict(
+   text="coq/Properties/C14.v: the sender's decision function never selects LZ4 (the helper only recognises the zstd magic); for every decision (size, extension, content sample, override) the SFTP/helper pipeline delivers exactly the original bytes, incl. empty, incompressible and magic-prefixed inputs -- relative to the zstd laws (theorem named _partial); raw helper payloads without the magic are written as they are; sparse transfers: for every extent layout whose holes read as zeros, receive_sparse(len, detect ext, pack f (detect ext)) = f (induction over the layout), short streams rejected. Tie: real `sy-remote receive-file`/`receive-sparse-file` over stdin with payload families (over pre-existing non-zero destination content), both codecs round-tripped, should_compress_smart vs the model's table, detect_data_regions vs the model fed with the kernel's extent map read by SEEK_DATA/SEEK_HOLE.",
+   note="Partial: decompress(compress x) = x for zstd/lz4 is a hypothesis (external C/Rust libraries; exercised on the payload corpus only); the SSH transport itself cannot run (no sshd) -- only the helper binary and the sender's pure logic are covered.",
+   technique="Rocq proof (decision-table case analysis; layout induction for sparse reconstruction) + helper-binary differential correspondence"),
  "C16": dict(
    text="Theorems in coq/Properties/C16.v: the glob matcher equals the declarative glob relation; basename/full-path/directory-subtree rule semantics; first-match decision; CLI rule order; and engine_select (the fold with excluded-directory pruning and size bounds) selects exactly {own first match includes, no excluded ancestor, size in bounds} for every rule list, bound and parent-first listing. Tied to the code by comparing FilterEngine::should_include with the extracted model over rule lists x a path universe and by running the real binary on generated trees/flags and comparing the transferred set with the proved selection; the listing hypothesis is evaluated on every real scan.",
    note="glob crate re-implemented for the grammar literal|?|* (validated by comparison, `**` and [..] outside the model); scanner walk order is a checked hypothesis. All theorems closed under the global context.",
